@@ -4277,9 +4277,23 @@ fn apply_captures(registers: &mut Vec<KValue>, f: &KFunction) {
 // documentation for iterator.copy and should hopefully be sufficient.
 pub(crate) fn clone_generator_vm(vm: &KotoVm) -> Result<KotoVm> {
     let mut result = vm.clone();
+    // Registers that refer to the same iterator (e.g. the iterator of a `for` loop that is also
+    // advanced by hand in the loop's body) have to refer to the same copy afterwards.
+    let mut copies: Vec<(KIterator, KIterator)> = Vec::new();
     for value in result.registers.iter_mut() {
         if let KValue::Iterator(i) = value {
-            *i = i.make_copy()?;
+            let copy = match copies
+                .iter()
+                .find(|(original, _)| original.is_same_instance(i))
+            {
+                Some((_, copy)) => copy.clone(),
+                None => {
+                    let copy = i.make_copy()?;
+                    copies.push((i.clone(), copy.clone()));
+                    copy
+                }
+            };
+            *i = copy;
         }
     }
     Ok(result)
